@@ -146,7 +146,7 @@ func runNodeMode(seed int64, n int, tr *transcript) {
 		plen, pfx := randPfx(r)
 		d := &bareDrv{tr: tr, r: r, id: i, n: art.NewVerifBareNode(plen, pfx), present: map[byte]uint32{}}
 		tr.emit(fmt.Sprintf("bn new %d %d %s", i, plen, hex.EncodeToString(pfx[:])), "ok")
-		strat := i % 6
+		strat := i % 7
 		tr.stats[fmt.Sprintf("bare-strategy-%d", strat)]++
 		rawSrc := func() byte { return byte(r.Intn(256)) }
 		if strat == 0 || r.Intn(4) == 0 {
@@ -229,6 +229,49 @@ func runNodeMode(seed int64, n int, tr *transcript) {
 					d.rm(k)
 				}
 			}
+		case 6: // fill a class exactly, shrink into the class below, then insert between the survivors and the old maximum
+			capN := pick(r, []int{16, 16, 48, 4})
+			for len(d.present) < capN && !d.dead {
+				d.add(byteSrc())
+			}
+			d.probe(true)
+			old := d.keys() // ascending
+			oldMax := old[len(old)-1]
+			low := map[int]int{16: 3, 48: 12, 4: 3}[capN]
+			// the old maximum goes first in half of the runs, and is among the victims in any case
+			if r.Intn(2) == 0 {
+				d.rm(oldMax)
+			}
+			for len(d.present) > low && !d.dead {
+				ks := d.keys()
+				if _, ok := d.present[oldMax]; ok && len(d.present) == low+1 {
+					d.rm(oldMax)
+				} else {
+					d.rm(ks[r.Intn(len(ks)-1)]) // never the current maximum unless it is the old one
+				}
+			}
+			d.probe(true)
+			for round := 0; round < 3 && !d.dead; round++ {
+				if len(d.present) > 2 {
+					d.rm(pick(r, d.keys()))
+					d.probe(true)
+				}
+				ks := d.keys()
+				top := ks[len(ks)-1]
+				if top < oldMax {
+					e := top + 1 + byte(r.Intn(int(oldMax-top)))
+					d.add(e)
+					d.probe(true)
+				}
+				if _, ok := d.present[0]; !ok && r.Intn(2) == 0 {
+					d.add(0)
+					d.probe(true)
+				}
+			}
+			for len(d.present) < 6 && !d.dead {
+				d.add(byteSrc())
+			}
+			d.probe(true)
 		case 5: // random walk
 			for s := 0; s < 400 && !d.dead; s++ {
 				grow := r.Intn(100) < 55
